@@ -365,12 +365,66 @@ Proof. unfold law_clone_independent. rewrite !andb_true_iff, !dres_eqb_spec. tau
 Theorem law_clone_independent_model d : law_clone_independent d d d d d = true.
 Proof. apply law_clone_independent_spec. tauto. Qed.
 
+Lemma In_keys_of k l : (exists r, In r l /\ is_Some (scm r !! k)) -> In k (keys_of l).
+Proof.
+  intros (r & Hin & [v Hv]). unfold keys_of. apply in_map_iff.
+  assert (Hl : is_Some (foldr (fun r acc => scm r ∪ acc) (∅ : smap) l !! k)).
+  { induction l as [|y l IH]; [contradiction|]. cbn [foldr]. rewrite lookup_union.
+    destruct Hin as [->|Hin].
+    - rewrite Hv. destruct (foldr _ _ l !! k); cbn; eauto.
+    - specialize (IH Hin). destruct IH as [w Hw]. rewrite Hw. destruct (scm y !! k); cbn; eauto. }
+  destruct Hl as [w Hw]. exists (k, w). split; [reflexivity|].
+  apply elem_of_list_In, elem_of_map_to_list. exact Hw.
+Qed.
+
 Theorem law_sub_add_model r x : law_sub_add r x (sub r x) (add (sub r x) x) = true.
 Proof.
-  unfold law_sub_add. destruct (sc r) as [m|] eqn:E; [|reflexivity].
-  assert (H : sc r <> None) by (rewrite E; discriminate).
-  destruct (sub_add_pointwise r x H) as (H1 & H2 & H3).
-  rewrite !andb_true_iff. repeat split; try (apply zeqb_true; assumption).
-  - apply zeqb_true. apply sub_cpu.
-  - apply forallb_forall. intros k _. apply andb_true_iff. split; apply zeqb_true; [apply H3|apply sub_sget; exact H].
+  unfold law_sub_add. rewrite !andb_true_iff. repeat split; try (apply zeqb_true; reflexivity).
+  - apply zeqb_true. rewrite add_cpu, sub_cpu. lia.
+  - apply zeqb_true. rewrite add_mem, sub_mem. lia.
+  - destruct (sc r) as [m|] eqn:E; [|reflexivity].
+    assert (H : sc r <> None) by (rewrite E; discriminate).
+    destruct (sub_add_pointwise r x H) as (_ & _ & H3).
+    apply forallb_forall. intros k _. apply andb_true_iff. split; apply zeqb_true; [apply H3|apply sub_sget; exact H].
 Qed.
+
+(* what a true answer of law 119 means: S is r - x and B is back at r in cpu and memory always, and in every
+   scalar dimension when r's scalar map is not nil *)
+Theorem law_sub_add_sound r x S B : law_sub_add r x S B = true ->
+  cpu B = cpu r /\ mem B = mem r /\ cpu S = cpu r - cpu x /\ mem S = mem r - mem x /\
+  (sc r <> None -> forall k, sget B k = sget r k /\ sget S k = sget r k - sget x k).
+Proof.
+  unfold law_sub_add. rewrite !andb_true_iff, !zeqb_true. intros [[[[H1 H2] H3] H4] H5].
+  repeat split; try assumption; destruct (sc r) as [m|] eqn:E; try congruence.
+  - rewrite forallb_forall in H5.
+    destruct (scm r !! k) as [v|] eqn:Er; [|destruct (scm B !! k) as [w|] eqn:Eb].
+    + specialize (H5 k ltac:(apply In_keys_of; exists r; split; [left; reflexivity|rewrite Er; eauto])).
+      apply andb_true_iff in H5 as [H5 _]. apply zeqb_true in H5. exact H5.
+    + specialize (H5 k ltac:(apply In_keys_of; exists B; split; [right; right; right; left; reflexivity|rewrite Eb; eauto])).
+      apply andb_true_iff in H5 as [H5 _]. apply zeqb_true in H5. exact H5.
+    + unfold sget. rewrite Er, Eb. reflexivity.
+  - rewrite forallb_forall in H5.
+    destruct (scm r !! k) as [v|] eqn:Er; [|destruct (scm x !! k) as [w|] eqn:Ex; [|destruct (scm S !! k) as [u|] eqn:Es]].
+    + specialize (H5 k ltac:(apply In_keys_of; exists r; split; [left; reflexivity|rewrite Er; eauto])).
+      apply andb_true_iff in H5 as [_ H5]. apply zeqb_true in H5. exact H5.
+    + specialize (H5 k ltac:(apply In_keys_of; exists x; split; [right; left; reflexivity|rewrite Ex; eauto])).
+      apply andb_true_iff in H5 as [_ H5]. apply zeqb_true in H5. exact H5.
+    + specialize (H5 k ltac:(apply In_keys_of; exists S; split; [right; right; left; reflexivity|rewrite Es; eauto])).
+      apply andb_true_iff in H5 as [_ H5]. apply zeqb_true in H5. exact H5.
+    + unfold sget. rewrite Er, Ex, Es. cbn. lia.
+Qed.
+
+(* law 118: a true answer means the later observations ARE the first one, as records *)
+Lemma dres_eqb_eq a b : dres_eqb a b = true <-> a = b.
+Proof.
+  rewrite dres_eqb_spec. split.
+  - destruct a, b; cbn. intros [-> ->]. reflexivity.
+  - intros ->. split; reflexivity.
+Qed.
+
+Theorem law_clone_independent_sound d before a1 a2 a3 :
+  law_clone_independent d before a1 a2 a3 = true -> before = d /\ a1 = before /\ a2 = before /\ a3 = before.
+Proof. unfold law_clone_independent. rewrite !andb_true_iff, !dres_eqb_eq. tauto. Qed.
+
+Theorem law_unchanged_spec before after : law_unchanged before after = true <-> before = after.
+Proof. unfold law_unchanged. apply bool_decide_eq_true. Qed.
